@@ -5,8 +5,10 @@ From Coq Require Import List Arith Bool Lia ZArith.
 Import ListNotations.
 Require Import ExcerptModel Model.
 
-(* a finalised position: index may be -1 (Python's negative indexing of `end - 1`) *)
-Definition fpos : Type := (Z * nat * nat).
+(* a finalised position: (index, Some (line, column)) or (index, None) when the
+   index lies outside the text (objects that consumed nothing: the end offset
+   `end - 1` may be -1 or precede the start; the start may be len(text)) *)
+Definition fpos : Type := (Z * option (nat * nat)).
 Inductive fvalue :=
 | FNone | FBoolV (b : bool) | FStr (s : list nat) | FNat (n : nat)
 | FList (l : list fvalue) | FTup (l : list fvalue)
@@ -18,7 +20,7 @@ Inductive outcome :=
 | Return (v : fvalue)
 | Partial (v : fvalue) (p : fpos)
 | ParseErr (idx : nat)
-| Crash (why : nat)          (* 1 IndexError, 2 stuck during parsing *)
+| Crash (why : nat)          (* 2 stuck during parsing, 3/4 bad entry point *)
 | Fuel.
 
 Section F.
@@ -26,40 +28,19 @@ Variable t : list nat.
 Let m := lc_map t 1 0.
 Let len := length t.
 
-(* line_numbers[i] with Python list indexing: negative indices wrap, out of range raises *)
-Definition py_index (i : Z) : option (nat * nat) :=
-  if (0 <=? i)%Z then nth_error m (Z.to_nat i)
-  else if (- Z.of_nat len <=? i)%Z then nth_error m (Z.to_nat (Z.of_nat len + i))
-  else None.
+(* position(index) of _finalize_parse_info *)
+Definition fin_pos (i : Z) : fpos :=
+  if ((0 <=? i) && (i <? Z.of_nat len))%Z then (i, nth_error m (Z.to_nat i)) else (i, None).
 
-Definition fin_pos (i : Z) : option fpos :=
-  match py_index i with Some (l, c) => Some (i, l, c) | None => None end.
-
-Fixpoint finalize (v : value) : option fvalue :=
+Fixpoint finalize (v : value) : fvalue :=
   match v with
-  | VNone => Some FNone | VBool b => Some (FBoolV b) | VStr s => Some (FStr s) | VInt n => Some (FNat n)
-  | VList l => option_map FList
-      ((fix go (l : list value) : option (list fvalue) :=
-          match l with [] => Some [] | x :: l' =>
-            match finalize x, go l' with Some a, Some r => Some (a :: r) | _, _ => None end end) l)
-  | VTuple l => option_map FTup
-      ((fix go (l : list value) : option (list fvalue) :=
-          match l with [] => Some [] | x :: l' =>
-            match finalize x, go l' with Some a, Some r => Some (a :: r) | _, _ => None end end) l)
-  | VNode k l => option_map (FNode k)
-      ((fix go (l : list value) : option (list fvalue) :=
-          match l with [] => Some [] | x :: l' =>
-            match finalize x, go l' with Some a, Some r => Some (a :: r) | _, _ => None end end) l)
-  | VObj c fs (s, e) =>
-      match fin_pos (Z.of_nat s), fin_pos (Z.of_nat e - 1)%Z,
-            (fix go (l : list value) : option (list fvalue) :=
-               match l with [] => Some [] | x :: l' =>
-                 match finalize x, go l' with Some a, Some r => Some (a :: r) | _, _ => None end end) fs with
-      | Some a, Some b, Some fs' => Some (FObj c fs' (a, b))
-      | _, _, _ => None
-      end
-  | VLit sl _ => Some (FStr sl)
-  | VFun _ | VErr _ | VRule _ | VClos _ _ => Some FOther
+  | VNone => FNone | VBool b => FBoolV b | VStr s => FStr s | VInt n => FNat n
+  | VList l => FList (map finalize l)
+  | VTuple l => FTup (map finalize l)
+  | VNode k l => FNode k (map finalize l)
+  | VObj c fs (s, e) => FObj c (map finalize fs) (fin_pos (Z.of_nat s), fin_pos (Z.of_nat e - 1)%Z)
+  | VLit sl _ => FStr sl
+  | VFun _ | VErr _ | VRule _ | VClos _ _ => FOther
   end.
 End F.
 
@@ -74,16 +55,10 @@ Definition parse_model (lf : bool) (g funs : list (list nat * expr)) (named : bo
     | Stuck _ => Crash 2
     | Done s =>
       if status s then
-        match finalize t (result s) with
-        | None => Crash 1
-        | Some fv =>
-          if fullparse && Nat.ltb (pos s) (length t)
-          then match fin_pos t (Z.of_nat (pos s)) with
-               | Some fp => Partial fv fp
-               | None => Crash 1
-               end
-          else Return fv
-        end
+        let fv := finalize t (result s) in
+        if fullparse && Nat.ltb (pos s) (length t)
+        then Partial fv (fin_pos t (Z.of_nat (pos s)))
+        else Return fv
       else ParseErr (pos s)
     end
   end.
